@@ -294,18 +294,16 @@ impl<'a, SE: brush_core::ShellExtensions> Highlighter<'a, SE> {
     }
 
     fn append_span(&mut self, kind: HighlightKind, range: std::ops::Range<usize>) {
-        debug_assert!(
-            self.input_line.is_char_boundary(range.start),
-            "span start {} is not a UTF-8 char boundary in {:?}",
-            range.start,
-            self.input_line,
-        );
-        debug_assert!(
-            self.input_line.is_char_boundary(range.end),
-            "span end {} is not a UTF-8 char boundary in {:?}",
-            range.end,
-            self.input_line,
-        );
+        // Offsets computed for nested programs can drift from the input line (a backquoted
+        // body is unescaped before it is tokenized), and tokens are not always delivered in
+        // source order. Normalize the range so that spans always tile the input line: never
+        // reach back before what is already covered, never extend past the end of the line,
+        // never split a UTF-8 character.
+        let start = self
+            .floor_char_boundary(range.start)
+            .max(self.current_byte_index);
+        let end = self.floor_char_boundary(range.end).max(start);
+        let range = start..end;
 
         // See if we need to cover a gap between this substring and the one that preceded it.
         if range.start > self.current_byte_index {
@@ -323,6 +321,15 @@ impl<'a, SE: brush_core::ShellExtensions> Highlighter<'a, SE> {
         }
 
         self.current_byte_index = end;
+    }
+
+    /// Returns the largest UTF-8 character boundary in the input line that is not past `index`.
+    fn floor_char_boundary(&self, index: usize) -> usize {
+        let mut index = index.min(self.input_line.len());
+        while !self.input_line.is_char_boundary(index) {
+            index -= 1;
+        }
+        index
     }
 
     fn skip_ahead(&mut self, dest: usize) {
